@@ -111,6 +111,95 @@ def checkMoments (vals : List (List Poly)) (fun_ : List (List Rat × List Rat ×
     let dot := ((List.range fj.2.1.length).map (fun a => (v.getD a []).eval fj.1 * fj.2.1.getD a 0)).sum
     Poly.ratAbs (dot * fj.2.2 - (if i == j then diag else 0)) ≤ tol))
 
+/-! ### restriction to a facet: composition with an affine parametrisation -/
+
+namespace Poly
+
+/-- add a term to a polynomial that has at most one term per exponent vector, keeping that shape -/
+def insertTerm (t : Rat × Mono) : Poly → Poly
+  | [] => [t]
+  | u :: us => if u.2 == t.2 then (u.1 + t.1, u.2) :: us else u :: insertTerm t us
+
+/-- merge the terms with equal exponent vectors -/
+def norm (p : Poly) : Poly := p.foldl (fun acc t => insertTerm t acc) []
+
+/-- normalised product -/
+def mulN (p q : Poly) : Poly := norm (mul p q)
+
+/-- `p ^ n` by repeated (normalised) multiplication; `const m 1` = the constant 1 in `m` variables -/
+def pow (m : Nat) (p : Poly) : Nat → Poly
+  | 0 => const m 1
+  | n + 1 => mulN p (pow m p n)
+
+/-- the affine function `a + Σ_k d_k s_k` of the `m` facet parameters as a polynomial:
+    `a` = constant, `d` = coefficients of the parameters -/
+def affineFn (m : Nat) (a : Rat) (d : List Rat) : Poly :=
+  (a, List.replicate m 0) ::
+    (List.range m).map (fun k => (d.getD k 0, (List.range m).map (fun l => if l == k then 1 else 0)))
+
+/-- one monomial `Π_i (g_i)^{e_i}` after substitution of the polynomials `g_i` for the variables -/
+def substMono (m : Nat) (g : List Poly) : List Nat → Poly
+  | [] => const m 1
+  | e :: es => mulN (pow m (g.getD 0 []) e) (substMono m (g.drop 1) es)
+
+/-- `p ∘ γ` for `γ_i(s) = origin_i + Σ_k dirs_k[i] · s_k` (`m = dirs.length` facet parameters),
+    with merged terms -/
+def substAffine (p : Poly) (origin : List Rat) (dirs : List (List Rat)) : Poly :=
+  let m := dirs.length
+  let g : List Poly := (List.range origin.length).map (fun i =>
+    affineFn m (origin.getD i 0) (dirs.map (fun d => d.getD i 0)))
+  norm (Poly.sum (p.map (fun t => smul t.1 (substMono m g t.2))))
+
+end Poly
+
+/-- **trace table** of an element: for every local facet `f` (parametrised by `fmaps[f] = (origin,
+    directions)`) and every local basis function `i`, `keys[f][i]` is `none` when the function is not
+    attached to the closure of the facet — then its restriction to the facet must vanish — or
+    `some k`, the position of the function within the facet (kind of sub-entity, local DOF, position of
+    the sub-entity in the facet's vertex list) — then its restriction, as a polynomial in the facet
+    parameters, must be the SAME for every `(f, i)` carrying the same `k` -/
+def checkTraceTable (vals : List Poly) (fmaps : List (List Rat × List (List Rat)))
+    (keys : List (List (Option Nat))) (tol : Rat) : Bool :=
+  let tr : Nat → Nat → Poly := fun f i =>
+    let fm := fmaps.getD f ([], [])
+    (vals.getD i []).substAffine fm.1 fm.2
+  let idx : List (Nat × Nat) :=
+    (List.range fmaps.length).flatMap (fun f => (List.range vals.length).map (fun i => (f, i)))
+  keys.length == fmaps.length && keys.all (fun r => r.length == vals.length) &&
+  idx.all (fun fi =>
+    match (keys.getD fi.1 []).getD fi.2 none with
+    | none => Poly.close (tr fi.1 fi.2) [] tol
+    | some k =>
+      -- compare with the first pair carrying the same key
+      match idx.find? (fun gj => (keys.getD gj.1 []).getD gj.2 none == some k) with
+      | some gj => Poly.close (tr fi.1 fi.2) (tr gj.1 gj.2) tol
+      | none => false)
+
+/-- structure of the key table: on every facet each key occurs once, and all facets carry the same
+    set of keys (so the attached functions of two facets correspond one to one through their keys) -/
+def checkKeys (keys : List (List (Option Nat))) : Bool :=
+  let somes := keys.map (fun r => r.filterMap id)
+  somes.all (fun r => decide r.Nodup) &&
+  somes.all (fun r => r.all (fun k => (somes.getD 0 []).contains k)
+                      && (somes.getD 0 []).all (fun k => r.contains k))
+
+/-- reversal symmetry for elements on cells whose shared facets may be traversed in opposite
+    directions (quadrilaterals): `pairs` lists `(k, k')` such that the trace with key `k` read
+    backwards (`s ↦ 1 − s`) is the trace with key `k'` -/
+def checkTraceReversal (vals : List Poly) (fmaps : List (List Rat × List (List Rat)))
+    (keys : List (List (Option Nat))) (pairs : List (Nat × Nat)) (tol : Rat) : Bool :=
+  let tr : Nat → Nat → Poly := fun f i =>
+    let fm := fmaps.getD f ([], [])
+    (vals.getD i []).substAffine fm.1 fm.2
+  let idx : List (Nat × Nat) :=
+    (List.range fmaps.length).flatMap (fun f => (List.range vals.length).map (fun i => (f, i)))
+  let first : Nat → Option Poly := fun k =>
+    (idx.find? (fun gj => (keys.getD gj.1 []).getD gj.2 none == some k)).map (fun gj => tr gj.1 gj.2)
+  pairs.all (fun kk =>
+    match first kk.1, first kk.2 with
+    | some p, some q => Poly.close (p.substAffine [1] [[-1]]) q tol
+    | _, _ => false)
+
 /-! ### power basis of the globally defined elements (`ElementGlobal._pbasis_create`) -/
 
 /-- the coefficient loop `for l in arange(dx, 0, -1): cx *= i - dx + l` -/
